@@ -326,6 +326,55 @@ def f9(style, when, nlocals):
     return prog(main, subs, {"x": "u"})
 
 
+# ---------------------------------------------------------------- F10
+def call_graph(k, main_mask, edge_mask, order):
+    """k subroutines g0..g(k-1) DEFINED in the order `order`; the main routine calls those in main_mask (bit i), in
+    ascending order; routine gi calls gj for every set bit i*k+j of edge_mask (i != j), each on n-1 (so every chain
+    of calls ends); every routine adds its own weight"""
+    subs = {}
+    defs = {}
+    for i in range(k):
+        total = ["Mul", L("n"), I(i + 2)]
+        for j in range(k):
+            if i != j and edge_mask >> (i * k + j) & 1:
+                total = ["Add", total, ["Call", "g%d" % j, ["Minus", L("n"), I(1)]]]
+        body = ["Seq", ["If", ["Eq", L("n"), I(0)], ["Return", I(i + 1)]], ["Return", total]]
+        defs["g%d" % i] = {"params": [["n", "val"]], "ret": "u", "body": body, "locals": [], "init_locals": False}
+    for i in order:
+        subs["g%d" % i] = defs["g%d" % i]
+    tot = I(7)
+    for i in range(k):
+        if main_mask >> i & 1:
+            tot = ["Add", tot, ["Call", "g%d" % i, N]]
+    main = ["Seq", ["GPut", ["Bytes", "72"], tot], ["Int", 1]]
+    return prog(main, subs)
+
+
+def call_graphs(k, orders="all"):
+    """every call graph over k routines (main's callees x every set of edges between different routines) x the
+    definition orders; graphs in which some routine is unreachable from main are left out (never built)"""
+    import itertools as it
+    out = []
+    perms = list(it.permutations(range(k))) if orders == "all" else [tuple(range(k)), tuple(reversed(range(k)))]
+    for main_mask in range(1, 1 << k):
+        for edge_mask in range(1 << (k * k)):
+            if any(edge_mask >> (i * k + i) & 1 for i in range(k)):
+                continue
+            reach = set(i for i in range(k) if main_mask >> i & 1)
+            todo = list(reach)
+            while todo:
+                i = todo.pop()
+                for j in range(k):
+                    if i != j and edge_mask >> (i * k + j) & 1 and j not in reach:
+                        reach.add(j)
+                        todo.append(j)
+            if len(reach) != k:
+                continue
+            for order in perms:
+                out.append((k, main_mask, edge_mask, order))
+    return out
+
+
 F5_SITES = ["stmt", "left", "right", "nested_arg", "arg_order", "arg_order3", "bytes_left", "bytes_right", "two_calls",
             "in_cond", "in_loop", "value_top"]
 F4_POS = ["first", "in_if", "in_ifelse", "in_loop", "in_for", "in_cond", "last"]
